@@ -100,10 +100,36 @@ deriving Repr, DecidableEq
 '''
 
 
-def st_tr(refused=False, **kw):
-    """`refused`: the same statements when `__trigger_update`'s submission is refused (nothing is queued)"""
+class CutTranslator(StateTranslator):
+    """the same statements when the submission inside `self.__trigger_update(...)` is refused: that statement RAISES, so
+    the block is CUT there — the statements after it are not executed.  Every way out of the function yields
+    `(state, <how it ended>)`: `cut` at the raising call, `ret(expr)` at a return / the end of the function."""
+
+    def __init__(self, cut, ret, **kw):
+        super().__init__(FIELDS, subst=dict(READS), **kw)
+        self.cut, self.ret = cut, ret
+
+    def sblock(self, stmts, returns):
+        st = self.state
+        if not stmts:
+            return f'({st}, {self.ret(None)})'
+        s0 = stmts[0]
+        if isinstance(s0, ast.Expr) and isinstance(s0.value, ast.Call) \
+                and ast.unparse(s0.value.func) == 'self.__trigger_update':
+            return f'({st}, {self.cut})'
+        if isinstance(s0, ast.Return):
+            return f'({st}, {self.ret(self.expr(s0.value) if s0.value is not None else None)})'
+        return super().sblock(stmts, returns)
+
+
+def st_tr(refused=None, **kw):
+    """`refused`: None, or 'add' / 'remove' — the CutTranslator for that method"""
+    if refused == 'add':
+        return CutTranslator('none', lambda e: f'some {e}' if e is not None else 'none', **kw)
+    if refused == 'remove':
+        return CutTranslator('true', lambda e: 'false', **kw)
     return StateTranslator(FIELDS, subst=dict(READS), stmt_calls={
-        'self.__trigger_update': (lambda args: 'st') if refused else (lambda args: 'triggerUpdate st')}, **kw)
+        'self.__trigger_update': lambda args: 'triggerUpdate st'}, **kw)
 
 
 def gen_init(tp):
@@ -175,7 +201,7 @@ def gen_add_custom(tp, refused=False):
         raise Untranslatable('add_custom does not start by naming a fresh uuid (`tp_id = str(uuid.uuid4())`)')
     if ast.unparse(body[1]) != 'config = build_trigger(tp_id, path, line, args, watches, metrics)':
         raise Untranslatable('add_custom: second statement is ' + ast.unparse(body[1])[:80])
-    tr = st_tr(refused)
+    tr = st_tr('add' if refused else None)
     rest = body[2:]
     guard = rest[0]
     if isinstance(guard, ast.If) and ast.unparse(guard.test) == 'config is None' and not guard.orelse \
@@ -188,9 +214,10 @@ def gen_add_custom(tp, refused=False):
         some_arm = tr.sblock(rest, True)
     ind = lambda t: '\n'.join('    ' + l for l in t.splitlines())   # noqa: E731
     if refused:
-        return ('/-- `add_custom` on a closed task handler: the same statements, the submission in `__trigger_update` is\n'
-                '    refused (nothing is queued; the exception leaves `add_custom` when that statement is reached) -/\n'
-                'def addCustomRefused (st : Svc) (built : Option Trig) : Svc × Handle :=\n'
+        return ('/-- `add_custom` on a closed task handler: the statements up to `self.__trigger_update(…)`, whose submission\n'
+                '    is refused — the exception leaves `add_custom` THERE, the statements after it are not executed.\n'
+                '    Second component: `some handle` = the call returned it, `none` = the refusal left the call -/\n'
+                'def addCustomRefused (st : Svc) (built : Option Trig) : Svc × Option Handle :=\n'
                 '  let tp_id := st.nextHandle\n  let st := { st with nextHandle := st.nextHandle + 1 }\n'
                 '  match built with\n  | none =>\n' + ind(none_arm) + '\n  | some config =>\n' + ind(some_arm) + '\n')
     return ('/-- what a stored `None` looks like in the lists (only reachable when `add_custom` does not guard) -/\n'
@@ -226,15 +253,16 @@ def gen_remove_custom(tp, refused=False):
     cond = loop.body[0]
     if not cond.body or not isinstance(cond.body[-1], ast.Return) or cond.body[-1].value is not None:
         raise Untranslatable('remove_custom: the match arm does not end with `return`')
-    tr = st_tr(refused)
+    tr = st_tr('remove' if refused else None)
     test = tr.expr(cond.test)
     arm = tr.sblock(list(cond.body), False)
     arm = '\n'.join('    ' + l for l in arm.splitlines())
     if refused:
-        return ('/-- `remove_custom` on a closed task handler (the submission is refused, nothing is queued) -/\n'
-                'def removeCustomRefused (st : Svc) (_id : Handle) : Svc :=\n'
+        return ('/-- `remove_custom` on a closed task handler: cut at the refused `self.__trigger_update(…)`; second component:\n'
+                '    the refusal left the call -/\n'
+                'def removeCustomRefused (st : Svc) (_id : Handle) : Svc × Bool :=\n'
                 f'  match List.findIdx? (fun {x} => {test}) {READS[src]} with\n'
-                '  | none => st\n'
+                '  | none => (st, false)\n'
                 f'  | some {idx} =>\n{arm}\n')
     return ('/-- `remove_custom`: first index whose registration id equals `_id`; both parallel lists lose that\n'
             '    index -/\n'
